@@ -859,6 +859,9 @@ pub struct Tracker {
     pub committed_open_ops: Vec<usize>,
     /// highest block ever finalised on this database
     pub max_ever: Option<u64>,
+    /// a signed transaction was parked in the pending pool while the open block is being built
+    /// (the engine then refuses commit / reorg / mine until the block is finalised or cleared)
+    pub open_parked: bool,
     /// a call was answered Panic/Hang
     pub fatal: bool,
     /// a call was answered with an error although it changed the store: from here on the answers
@@ -873,7 +876,7 @@ impl Tracker {
     pub fn next_height(&self) -> u64 { self.blocks.len() as u64 }
     /// transactions executed in the open block so far (what the engine calls waiting_tx_count)
     pub fn waiting(&self) -> u64 { self.open.receipts.len() as u64 }
-    pub fn at_boundary(&self) -> bool { self.waiting() == 0 }
+    pub fn at_boundary(&self) -> bool { self.waiting() == 0 && !self.open_parked }
     pub fn hash_exists(&self, h: &Hx) -> bool { self.blocks.iter().any(|b| &b.hash == h) }
 
     fn push_block(&mut self, mut b: BlockRec) {
@@ -923,6 +926,9 @@ impl Tracker {
             }
             Op::Transact { .. } => {
                 self.open.ops.push(idx);
+                if out.result.as_array().map_or(false, |rs| rs.is_empty()) && out.events.iter().any(is_mutation) {
+                    self.open_parked = true;
+                }
                 if let Some(rs) = out.result.as_array() {
                     for r in rs {
                         // a drained transaction carries the inscription id it was parked with; ask the receipt's tx
@@ -934,6 +940,7 @@ impl Tracker {
                 }
             }
             Op::Finalise { ts, hash, .. } => {
+                self.open_parked = false;
                 let mut b = std::mem::take(&mut self.open);
                 b.hash = resolve_hash(self.next_height(), hash);
                 b.ts = *ts;
@@ -946,6 +953,7 @@ impl Tracker {
                 self.committed_open_ops = self.open.ops.clone();
             }
             Op::Clear | Op::Reopen => {
+                self.open_parked = false;
                 self.blocks.truncate(self.committed_len);
                 self.open = BlockRec { ops: self.committed_open_ops.clone(), ..BlockRec::default() };
             }
@@ -992,10 +1000,10 @@ impl Tracker {
                 if self.hash_exists(&rh) { return Some("block hash already exists"); }
                 None
             }
-            Op::Commit => if waiting > 0 { Some("commit while a block is open") } else { None },
-            Op::Mine { .. } => if waiting > 0 { Some("mine while a block is open") } else { None },
+            Op::Commit => if waiting > 0 || self.open_parked { Some("commit while a block is open") } else { None },
+            Op::Mine { .. } => if waiting > 0 || self.open_parked { Some("mine while a block is open") } else { None },
             Op::Reorg(n) => {
-                if waiting > 0 { return Some("reorg while a block is open"); }
+                if waiting > 0 || self.open_parked { return Some("reorg while a block is open"); }
                 let h = self.height().unwrap_or(0);
                 if *n > h { return Some("reorg above the current height"); }
                 if h - *n > W { return Some("reorg deeper than the window below the height"); }
